@@ -33,6 +33,7 @@ type c16Log struct {
 	closeRet    []int
 	closersDone int
 	serveDone   bool
+	serves      int // number of Serve calls that returned
 	serveErr    error
 	serveRet    int
 	events      []string
@@ -80,6 +81,10 @@ func (l *c16Log) closeReturned0() {
 
 //go:norace
 func (l *c16Log) served(err error) {
+	l.serves++
+	if err == nil {
+		err = l.serveErr // (the first error of several Serve calls is kept)
+	}
 	l.serveDone, l.serveErr, l.serveRet = true, err, vsched.Now()
 	l.events = append(l.events, fmt.Sprintf("@%d Serve returned %v", vsched.Now(), err))
 }
@@ -177,7 +182,7 @@ type c16Conn struct {
 }
 
 type c16Spec struct {
-	copyIn bool // the statement performs COPY-in (its handler blocks on client input)
+	copyIn      bool // the statement performs COPY-in (its handler blocks on client input)
 	acceptFault bool // the listener reports an Accept error while a connection is being served
 	midFrame    bool // the statement writes a row whose value yields to the scheduler while it is being encoded
 	name        string
@@ -187,7 +192,9 @@ type c16Spec struct {
 	secondClose bool
 	// closeBeforeServe: Close is called by main before Serve is started
 	closeBeforeServe bool
-	desc             string
+	// listeners: number of listeners served by the one Server (0 = 1); connection i arrives on listener i % listeners
+	listeners int
+	desc      string
 }
 
 func c16Specs() []c16Spec {
@@ -205,6 +212,10 @@ func c16Specs() []c16Spec {
 			desc: "a failed extended message followed by discarded messages, a Sync and a Query + one Close (every admitted command must be released again)"},
 		{name: "X9", conns: []c16Conn{{"c1", [][]byte{start, pgproto.Query("copy"), pgproto.CopyData([]byte("a\n")), pgproto.CopyDone()}}}, closers: 1, copyIn: true,
 			desc: "a statement inside COPY-in (blocked reading from the client between chunks) + Close: Close waits until the copy has been completed by the client"},
+		{name: "X10", conns: []c16Conn{{"c1", [][]byte{start, q}}, {"c2", [][]byte{start}}}, closers: 1, listeners: 2,
+			desc: "one Server serving two listeners (a connection with a Query on the first, an idle connection on the second) + Close: every Serve call returns nil, every accept loop stops"},
+		{name: "X11", conns: []c16Conn{{"c1", [][]byte{start, pgproto.Cat(q, q)}}}, closers: 1,
+			desc: "two Query messages arriving in one segment (the second is already buffered while the first handler runs) + Close"},
 		{name: "X8", conns: []c16Conn{{"c1", [][]byte{start, q}}}, closers: 1, acceptFault: true,
 			desc: "the listener fails with an Accept error (Serve returns it) while a connection is inside a handler, then Close"},
 	}
@@ -230,12 +241,20 @@ func c16Scenario(spec c16Spec) *Scenario {
 					panic(err)
 				}
 				l := memnet.NewSListener()
+				ls := []*memnet.SListener{l}
 				vsched.RegisterObject("server", unsafe.Pointer(srv), unsafe.Sizeof(*srv))
 				vsched.RegisterObject("listener", unsafe.Pointer(l), unsafe.Sizeof(*l))
 				vsched.RegisterObject("log", unsafe.Pointer(log), unsafe.Sizeof(*log))
 				vsched.Go(func() { log.served(srv.Serve(l)) })
-				for _, c := range spec.conns {
+				for i := 1; i < spec.listeners; i++ {
+					li := memnet.NewSListener()
+					ls = append(ls, li)
+					vsched.RegisterObject(fmt.Sprintf("listener%d", i), unsafe.Pointer(li), unsafe.Sizeof(*li))
+					vsched.Go(func() { log.served(srv.Serve(li)) })
+				}
+				for ci, c := range spec.conns {
 					c := c
+					l := ls[ci%len(ls)]
 					sc := memnet.NewSConn("mem:"+c.name, nil, false)
 					conns = append(conns, sc)
 					vsched.RegisterObject("conn:"+c.name, unsafe.Pointer(sc), unsafe.Sizeof(*sc))
@@ -279,8 +298,8 @@ func c16Scenario(spec c16Spec) *Scenario {
 					fail("deadlock", fmt.Sprintf("no thread can make progress: %v", x.Blocked))
 				}
 				if len(x.Panics) == 0 && !x.Deadlock && !x.StepLimit {
-					if !log.serveDone {
-						fail("serve-did-not-return", "Serve has not returned although the server was closed")
+					if !log.serveDone || log.serves != max(spec.listeners, 1) {
+						fail("serve-did-not-return", fmt.Sprintf("%d of %d Serve calls have returned although the server was closed", log.serves, max(spec.listeners, 1)))
 					} else if log.serveErr != nil && !spec.acceptFault {
 						fail("serve-error", fmt.Sprintf("Serve returned %v, expected nil", log.serveErr))
 					}
